@@ -404,6 +404,21 @@ pub fn check(_ctx: &Ctx, input: &Input) -> CaseResult {
                 }
             }
         }
+        // types need no bijection either: the signature at the reported index
+        // of the emitted type section must be the signature of the input type
+        for (id, got) in ans.types.iter() {
+            let inputs: Vec<usize> = ids.types.iter().enumerate().filter(|(_, x)| *x == id).map(|(i, _)| i).collect();
+            if inputs.is_empty() {
+                continue;
+            }
+            let want = &da.types[inputs[0]];
+            if db.types.get(*got as usize) != Some(want) {
+                return Err(Failure::new(
+                    "emit-map:type",
+                    format!("the emit-time map puts type of input index {:?} at {}, the emitted type section has {:?} there, expected {:?} [{}]", inputs, got, db.types.get(*got as usize), want, p.origin),
+                ));
+            }
+        }
         // functions of the generated profile start with a unique tag
         // (`i64.const 0x7a6000+k; drop`): a witness of identity that needs no
         // bijection, so it still decides when the structural comparison fails
@@ -548,16 +563,6 @@ pub fn check(_ctx: &Ctx, input: &Input) -> CaseResult {
         space!("global", ans.globals, ids.globals, iso.globals);
         space!("element", ans.elems, ids.elems, iso.elems);
         space!("data", ans.datas, ids.datas, iso.datas);
-        for (id, got) in ans.types.iter() {
-            let inputs: Vec<usize> = ids.types.iter().enumerate().filter(|(_, x)| *x == id).map(|(i, _)| i).collect();
-            let want = &da.types[inputs[0]];
-            if db.types.get(*got as usize) != Some(want) {
-                return Err(Failure::new(
-                    "emit-map:type",
-                    format!("[{}] the emit-time map puts type of input index {:?} at {}, the emitted type section has {:?} there, expected {:?} [{}]", mode, inputs, got, db.types.get(*got as usize), want, p.origin),
-                ));
-            }
-        }
         out.label(format!("mode:{}", mode));
     }
     let kinds = [
